@@ -24,6 +24,9 @@ func register(name string, g gen, nontrivial func(in lcw.Input, obs []lcw.StepOb
 		if name == "c15" {
 			c.Coq = "(C15.CIn " + c.Coq + ")"
 		}
+		if name == "c10" {
+			c.Coq = "(C10.CIn " + c.Coq + ")"
+		}
 		c.Classes = lcw.Classes(in, obs)
 		raw, _ := json.Marshal(in)
 		c.Key = string(raw)
@@ -36,6 +39,16 @@ func register(name string, g gen, nontrivial func(in lcw.Input, obs []lcw.StepOb
 			count := 0
 			for count < n && !lcw.Diverged {
 				sub := r.U64()
+				if name == "c10" && count%4 == 3 {
+					sc, err := runStageCase(genStageInput(rng.New(sub)))
+					if err != nil {
+						panic(err)
+					}
+					sc.Sub = sub
+					emit(sc)
+					count++
+					continue
+				}
 				if name == "c15" && count%5 == 4 && rk.Available() {
 					pc, err := runProc(genProcInput(rng.New(sub)))
 					if err != nil {
@@ -66,6 +79,12 @@ func register(name string, g gen, nontrivial func(in lcw.Input, obs []lcw.StepOb
 			}
 			if json.Unmarshal(raw, &probe) == nil && probe.Proc != nil {
 				return runProc(*probe.Proc)
+			}
+			var sprobe struct {
+				Stage *StageInput `json:"stage"`
+			}
+			if json.Unmarshal(raw, &sprobe) == nil && sprobe.Stage != nil {
+				return runStageCase(*sprobe.Stage)
 			}
 			var in lcw.Input
 			if err := json.Unmarshal(raw, &in); err != nil {
